@@ -184,7 +184,7 @@ def main(argv):
             if os.path.exists(partial):
                 run.absorb(json.loads(Path(partial).read_text()))
             else:
-                tail = Path(log.name).read_text()[-1500:]
+                tail = Path(log.name).read_text()[-400:]
                 run.inconclusive.append("shard %d died without a result (rc=%s): %s" %
                                         (i, p.returncode, tail))
         rc = run.finish(write_evidence=replay is None)
